@@ -1,6 +1,6 @@
 use alloc::borrow::ToOwned;
 use core::{iter::Peekable, str::Chars};
-use ixdtf::parsers::{records::UtcOffsetRecordOrZ, IxdtfParser};
+use ixdtf::parsers::records::UtcOffsetRecordOrZ;
 
 use crate::{
     builtins::timezone::UtcOffset, utils::iso_days_in_month, TemporalError, TemporalResult,
@@ -15,8 +15,7 @@ pub(crate) fn parse_allowed_timezone_formats(s: &str) -> Option<TimeZone> {
         parse_ixdtf(s, ParseVariant::DateTime).map(|r| (r.offset, r.tz))
     {
         (offset, annotation)
-    } else if let Some((offset, annotation)) = IxdtfParser::from_str(s)
-        .parse_time()
+    } else if let Some((offset, annotation)) = parse_ixdtf(s, ParseVariant::Time)
         .ok()
         // `2020-01` is a year-month, not 20:20 at offset -01.
         .filter(|_| !is_ambiguous_time_string(s))
